@@ -54,20 +54,40 @@ def zero_block_context(case, r, block):
             nxt["id"] in lst.deleted_blocks or
             nxt["id"] in lst.proxy_deleted):
         return ":reason-removed-by-another-edit"
-    # (a) every instruction that branched to it was deleted as well
+    # (a) the input had non-fallthrough edges into the block (or into the
+    # wholly deleted blocks in front of it, whose edges slid onto it) and
+    # none of their source instructions survives
+    from .. import irbuild
+    from ..listing import Listing
+    l0 = Listing(case)
+    l0.layout()
+    edges0, _, instr0 = irbuild.expected_edges(l0, l0.label_positions())
+    chain = {bid}
+    for s in case["secs"]:
+        seq = [b for iv in s["ivs"] for b in iv["blocks"]]
+        for k, b in enumerate(seq):
+            if b["id"] == bid:
+                j = k - 1
+                while j >= 0 and seq[j]["id"] in lst.deleted_blocks and \
+                        seq[j]["id"] not in lst.proxy_deleted:
+                    chain.add(seq[j]["id"])
+                    j -= 1
+    start_pos = {}
+    for si, ii, t in l0.all_tokens():
+        if t.t == "B":
+            start_pos[(si, t.pos)] = start_pos.get((si, t.pos), set()) | {
+                t.bid}
     alive = {t.uid for _, _, t in lst.all_tokens() if t.t == "I"}
     had = False
-    for s in case["secs"]:
-        for iv in s["ivs"]:
-            for b in iv["blocks"]:
-                if not b["code"]:
-                    continue
-                for idx, it in enumerate(b["items"]):
-                    if it.get("t") in names and it["k"] in (
-                            "jmp", "jmp32", "jne", "je32", "call"):
-                        had = True
-                        if ("o", b["id"], idx) in alive:
-                            return ""
+    for (si, pos, et, c, d, tgt) in edges0:
+        if et == "ft" or tgt[0] != "pos":
+            continue
+        if not (start_pos.get((tgt[1], tgt[2]), set()) & chain):
+            continue
+        had = True
+        src = instr0.get((si, pos))
+        if src is not None and src.uid in alive:
+            return ""
     return ":reason-removed-by-another-edit" if had else ""
 
 
